@@ -914,27 +914,34 @@ class Evaluator:
                     return self._ite(Cond("sym", "isResidual(%s)" % vkey(v)), Sym("residual(%s)" % vkey(v)), rest)
             if self.strings and self._string_effects(tb, i, env, depth):
                 continue
-            # other statements: locals assigned anywhere inside lose their known value
-            for x, m in tb.walk(i):
-                if m["k"] in ("Assign", "AssignOp"):
-                    li, ln = tb.e(m["l"])
-                    while ln["k"] in ("Deref", "Field", "Index") and "e" in ln:
-                        li, ln = tb.e(ln["e"])
-                    if ln["k"] in ("Var", "Upvar") and ln["id"] in env:
-                        try:
-                            r = vkey(self.eval(tb, m["r"], env, depth))
-                        except Unsupported:
-                            r = "?"
-                        env[ln["id"]] = Sym("mut(%s;%s%s)" % (vkey(env[ln["id"]]), m.get("op", "="), r))
-                elif m["k"] == "Return" and not self._noise(m):
-                    raise Unsupported("early return nested in a statement at line %s" % (m.get("sp") or {}).get("l"))
-                elif m["k"] == "Borrow" and m.get("mut"):
-                    bi, bn = tb.e(m["e"])
-                    if bn["k"] in ("Var", "Upvar") and bn["id"] in env and not isinstance(env[bn["id"]], (Obj, Slice)):
-                        env[bn["id"]] = Sym("mutborrowed(%s)" % vkey(env[bn["id"]]))
+            self._other_stmt(tb, i, env, depth)
         if blk.get("expr") is not None:
             return self.eval(tb, blk["expr"], env, depth)
         return Sym("unit")
+
+    def _other_stmt(self, tb, i, env, depth):
+        """a statement that is not modelled: locals assigned or mutably borrowed anywhere inside lose their known value"""
+        for x, m in tb.walk(i):
+            if m["k"] in ("Assign", "AssignOp"):
+                li, ln = tb.e(m["l"])
+                while ln["k"] in ("Deref", "Field", "Index") and "e" in ln:
+                    li, ln = tb.e(ln["e"])
+                if ln["k"] in ("Var", "Upvar") and ln["id"] in env:
+                    try:
+                        r = vkey(self.eval(tb, m["r"], env, depth))
+                    except Unsupported:
+                        r = "?"
+                    env[ln["id"]] = Sym("mut(%s;%s%s)" % (vkey(env[ln["id"]]), m.get("op", "="), r))
+            elif m["k"] == "Return" and not self._noise(m):
+                raise Unsupported("early return nested in a statement at line %s" % (m.get("sp") or {}).get("l"))
+            elif m["k"] == "Borrow" and m.get("mut"):
+                bi, bn = tb.e(m["e"])
+                if bn["k"] in ("Var", "Upvar") and bn["id"] in env and not isinstance(env[bn["id"]], (Obj, Slice)):
+                    env[bn["id"]] = Sym("mutborrowed(%s)" % vkey(env[bn["id"]]))
+
+    def _touches_strings(self, tb, i, env):
+        """does expression i mention a tracked string variable at all"""
+        return any(m["k"] in ("Var", "Upvar") and isinstance(env.get(m["id"]), Str) for x, m in tb.walk(i))
 
     _STR_MUT = ("write_fmt", "write_str", "push_str", "push", "insert_str", "insert")
 
@@ -967,10 +974,48 @@ class Evaluator:
                     except Unsupported:
                         return False
                 elif not self._string_effects(tb, x, env2, depth):
-                    return False
+                    # a statement of the block that has nothing to do with the tracked strings (a counter update, a log
+                    # line) is applied as an unmodelled statement; one that touches them in another way gives up
+                    if self._touches_strings(tb, x, env2):
+                        return False
+                    try:
+                        self._other_stmt(tb, x, env2, depth)
+                    except Unsupported:
+                        return False
             for kk in env:
                 env[kk] = env2.get(kk, env[kk])
             return True
+        if k == "Match":
+            # a match whose arm is decided: the effects of that arm
+            try:
+                v = self.eval(tb, n["scrut"], env, depth)
+            except Unsupported:
+                return False
+            for a in n["arms"]:
+                arm = tb.arms[a]
+                c, binds = self.pat_cond(arm["pat"], v, env)
+                env2 = dict(env)
+                env2.update(binds)
+                if arm.get("guard") is not None:
+                    try:
+                        c = self.logic("and", c, self.as_cond(self.eval(tb, arm["guard"], env2, depth)))
+                    except Unsupported:
+                        return False
+                if isinstance(c, Cond) and c.op == "false":
+                    continue
+                if isinstance(c, Cond) and c.op == "true":
+                    if not self._string_effects(tb, arm["body"], env2, depth):
+                        if self._touches_strings(tb, arm["body"], env2):
+                            return False
+                        try:
+                            self._other_stmt(tb, arm["body"], env2, depth)
+                        except Unsupported:
+                            return False
+                    for kk in env:
+                        env[kk] = env2.get(kk, env[kk])
+                    return True
+                return False
+            return False
         if k == "If":
             try:
                 c = self.cond_of_if(tb, n, env, depth)
